@@ -1040,7 +1040,7 @@ func leakRank(g *group) string {
 func innermostLibOf(g *gstate) string {
 	for _, f := range g.Frames {
 		if strings.HasPrefix(f.Func, repoPrefix) {
-			return shortFunc(f.Func) + " (" + shortPath(f.Line) + ")"
+			return stableName(f.Func, f.Line) + " (" + shortPath(f.Line) + ")"
 		}
 	}
 	return "?"
